@@ -6,7 +6,7 @@
    view are the sums of the segment [tip cut, new cut).   R6  the fee rate of a view.
    R7/R8  the live HTLC sets.   R9  computeView over compacted logs = cut_gross / cut_rate /
    live_adds of the cut, and the commitment built from it is commit_of's. *)
-From Coq Require Import List ZArith NArith Bool Arith Lia.
+From Coq Require Import List ZArith NArith Bool Arith Lia Permutation.
 From LV Require Import Channel.Model Channel.Resync Channel.Proofs Channel.View Channel.ViewProofs.
 Import ListNotations.
 
@@ -282,8 +282,17 @@ Definition present (L Lo : list upd) (Ft Fo i : nat) : bool :=
   | None => false
   end.
 
+(* strictly increasing *)
+Fixpoint inc (l : list nat) : Prop :=
+  match l with [] => True | a :: r => (forall y, In y r -> a < y) /\ inc r end.
+
+(* The LogIndexes of U are exactly the present indices - as a SET (after a restart
+   restoreStateLogs re-inserts the Adds of a commitment before the older settle / fail / fee
+   entries, so list order is not index order); what evaluateHTLCView needs of the order is only
+   that the FEE updates appear in index order (the fee rate of a view is its last fee update). *)
 Record LogCorr (L Lo : list upd) (U : ulog) (Ft Fo : nat) : Prop := mkLC {
-  lc_idx : map idx (l_list U) = filter (present L Lo Ft Fo) (seq 0 (length L));
+  lc_perm : Permutation (map idx (l_list U)) (filter (present L Lo Ft Fo) (seq 0 (length L)));
+  lc_fee : inc (map idx (filter is_fee (l_list U)));
   lc_ent : forall e, In e (l_list U) -> corr_entry L Lo e
 }.
 
@@ -293,7 +302,7 @@ Hypothesis LC : LogCorr L Lo U Ft Fo.
 
 Lemma lc_in e : In e (l_list U) -> idx e < length L /\ present L Lo Ft Fo (idx e) = true.
 Proof.
-  intros IN. apply (in_map idx) in IN. rewrite (lc_idx _ _ _ _ _ LC) in IN.
+  intros IN. apply (in_map idx) in IN. apply (Permutation_in _ (lc_perm _ _ _ _ _ LC)) in IN.
   apply filter_In in IN. destruct IN as [A B]. apply in_seq in A. split; [lia|exact B].
 Qed.
 
@@ -301,12 +310,15 @@ Lemma lc_present i : i < length L -> present L Lo Ft Fo i = true ->
   exists e, In e (l_list U) /\ idx e = i.
 Proof.
   intros LT P. assert (IN : In i (map idx (l_list U))).
-  { rewrite (lc_idx _ _ _ _ _ LC). apply filter_In. split; [apply in_seq; lia|exact P]. }
+  { apply (Permutation_in _ (Permutation_sym (lc_perm _ _ _ _ _ LC))).
+    apply filter_In. split; [apply in_seq; lia|exact P]. }
   apply in_map_iff in IN. destruct IN as [e [E IN]]. exists e. auto.
 Qed.
 
 Lemma lc_nodup : NoDup (map idx (l_list U)).
-Proof. rewrite (lc_idx _ _ _ _ _ LC). apply NoDup_filter, seq_NoDup. Qed.
+Proof.
+  apply (Permutation_NoDup (Permutation_sym (lc_perm _ _ _ _ _ LC))). apply NoDup_filter, seq_NoDup.
+Qed.
 
 Lemma nodup_map_inj {A B} (f : A -> B) (l : list A) x y :
   NoDup (map f l) -> In x l -> In y l -> f x = f y -> x = y.
@@ -369,32 +381,70 @@ Qed.
 Definition seg (U : ulog) (t n : nat) : list entry :=
   filter (fun e => in_seg t n (idx e)) (l_list U).
 
+Lemma perm_filter {A} (P : A -> bool) (l l' : list A) : Permutation l l' -> Permutation (filter P l) (filter P l').
+Proof.
+  induction 1 as [|x l l' H IH|x y l|l l' l'' H1 IH1 H2 IH2]; cbn.
+  - constructor.
+  - destruct (P x); [constructor|]; exact IH.
+  - destruct (P x), (P y); try constructor; apply Permutation_refl.
+  - eapply Permutation_trans; eauto.
+Qed.
+
+Lemma sumf_perm {A} (f : A -> Z) (l l' : list A) : Permutation l l' -> sumf f l = sumf f l'.
+Proof.
+  induction 1 as [|x l l' H IH|x y l|l l' l'' H1 IH1 H2 IH2].
+  - reflexivity.
+  - rewrite !sumf_cons, IH. reflexivity.
+  - rewrite !sumf_cons. lia.
+  - congruence.
+Qed.
+
+Lemma sumf_ext_in' {A} (f g : A -> Z) l : (forall x, In x l -> f x = g x) -> sumf f l = sumf g l.
+Proof.
+  induction l as [|a r IH]; intros H; [reflexivity|]. rewrite !sumf_cons, (H a (or_introl eq_refl)).
+  f_equal. apply IH. intros x IN. apply H. now right.
+Qed.
+
 Lemma seg_idx L Lo U Ft Fo t n : LogCorr L Lo U Ft Fo -> t <= n -> n <= length L ->
-  map idx (seg U t n) = filter (present L Lo Ft Fo) (seq t (n - t)).
+  Permutation (map idx (seg U t n)) (filter (present L Lo Ft Fo) (seq t (n - t))).
 Proof.
   intros LC H1 H2. unfold seg. rewrite (map_filter_comm idx (in_seg t n)).
-  rewrite (lc_idx _ _ _ _ _ LC), filter_filter_comm, filter_seg_seq; [reflexivity|lia|lia|lia].
+  eapply Permutation_trans; [apply perm_filter, (lc_perm _ _ _ _ _ LC)|].
+  rewrite filter_filter_comm, filter_seg_seq; [apply Permutation_refl|lia|lia|lia].
 Qed.
 
 (* sums over a fully present segment = sums over the update list *)
+Lemma sumf_map {A B} (f : A -> B) (g : B -> Z) l : sumf g (map f l) = sumf (fun x => g (f x)) l.
+Proof. induction l as [|a r IH]; [reflexivity|]. cbn [map]. rewrite !sumf_cons, IH. reflexivity. Qed.
+
+Lemma skipn_cons_nth {A} (L : list A) : forall t u, nth_error L t = Some u -> skipn t L = u :: skipn (S t) L.
+Proof.
+  induction L as [|x L IH]; intros [|t] u NE; cbn in *; try discriminate.
+  - injection NE as ->. reflexivity.
+  - apply IH, NE.
+Qed.
+
+Lemma sum_seq_seg (L : list upd) (G : upd -> Z) : forall k t, t + k <= length L ->
+  sumf (fun i => match nth_error L i with Some u => G u | None => 0%Z end) (seq t k)
+  = sumf G (firstn k (skipn t L)).
+Proof.
+  induction k as [|k IH]; intros t H; [reflexivity|]. cbn [seq].
+  destruct (nth_error L t) as [u|] eqn:NE.
+  2:{ apply nth_error_None in NE. lia. }
+  rewrite (skipn_cons_nth L t u NE). cbn [firstn]. rewrite !sumf_cons, NE. f_equal. apply IH. lia.
+Qed.
+
 Lemma sum_seg L Lo (g : entry -> Z) (G : upd -> Z) :
   (forall e u, nth_error L (idx e) = Some u -> corr_entry L Lo e -> g e = G u) ->
-  forall es t k, map idx es = seq t k -> (forall e, In e es -> corr_entry L Lo e) ->
+  forall es t k, Permutation (map idx es) (seq t k) -> t + k <= length L ->
+  (forall e, In e es -> corr_entry L Lo e) ->
   sumf g es = sumf G (firstn k (skipn t L)).
 Proof.
-  intros HG. induction es as [|e r IH]; intros t k HM HC.
-  - destruct k; [reflexivity|discriminate].
-  - destruct k as [|k]; [discriminate|]. cbn [map seq] in HM. injection HM as HI HM.
-    pose proof (HC e (or_introl eq_refl)) as CE.
-    destruct (nth_error L (idx e)) as [u|] eqn:NE; [|unfold corr_entry in CE; rewrite NE in CE; tauto].
-    rewrite HI in NE.
-    assert (SK : skipn t L = u :: skipn (S t) L).
-    { clear - NE. revert L NE. induction t as [|t IHt]; intros [|x L] NE; cbn in *; try discriminate.
-      - injection NE as ->. reflexivity.
-      - apply IHt, NE. }
-    rewrite SK. cbn [firstn]. rewrite !sumf_cons. f_equal.
-    + apply HG; [rewrite HI; exact NE|exact CE].
-    + apply IH; [exact HM|]. intros x IN. apply HC. now right.
+  intros HG es t k HM HL HC. rewrite <- sum_seq_seg by exact HL.
+  rewrite <- (sumf_perm _ _ _ HM), sumf_map. apply sumf_ext_in'. intros e IN.
+  pose proof (HC e IN) as CE.
+  destruct (nth_error L (idx e)) as [u|] eqn:NE; [|unfold corr_entry in CE; rewrite NE in CE; tauto].
+  apply HG; assumption.
 Qed.
 
 (* ---------- R4: positions of adds ---------- *)
@@ -597,9 +647,10 @@ Proof.
 Qed.
 
 (* every index of the segment [tX, nX) is present *)
-Lemma seg_full : map idx (seg UX tX nX) = seq tX (nX - tX).
+Lemma seg_full : Permutation (map idx (seg UX tX nX)) (seq tX (nX - tX)).
 Proof.
-  rewrite (seg_idx _ _ _ _ _ _ _ LCX) by lia. apply filter_all.
+  eapply Permutation_trans; [apply (seg_idx _ _ _ _ _ _ _ LCX); lia|].
+  rewrite filter_all; [apply Permutation_refl|].
   intros i IN. apply in_seq in IN. unfold present.
   destruct (nth_error LX i) as [[a ex h|?|?|?]|] eqn:NE.
   - apply negb_true_iff. unfold removed_below.
@@ -654,6 +705,7 @@ Proof.
     + destruct C as [[T|T] [_ A]]; rewrite T, A; destruct st; reflexivity.
     + destruct C as [T _]. rewrite T. reflexivity.
   - exact seg_full.
+  - lia.
   - exact seg_corr.
 Qed.
 
@@ -697,6 +749,7 @@ Proof.
     + destruct C as [[T|T] _]; rewrite T; reflexivity.
     + destruct C as [T _]. rewrite T. reflexivity.
   - exact seg_full.
+  - lia.
   - exact seg_corr.
 Qed.
 
@@ -712,9 +765,6 @@ Qed.
 End OneLog.
 
 (* ---------- R6: the fee rate of a view ---------- *)
-Fixpoint inc (l : list nat) : Prop :=
-  match l with [] => True | a :: r => (forall y, In y r -> a < y) /\ inc r end.
-
 Lemma inc_filter_seq P : forall len s, inc (filter P (seq s len)).
 Proof.
   induction len as [|len IH]; intros s; cbn; [exact I|].
@@ -806,7 +856,7 @@ Lemma view_fee_rate :
   | None => last_fee (firstn t L) r0
   end = last_fee (firstn n L) r0.
 Proof.
-  assert (INC : inc (map idx (l_list U))) by (rewrite (lc_idx _ _ _ _ _ LC); apply inc_filter_seq).
+  pose proof (lc_fee _ _ _ _ _ LC) as INC.
   assert (VF : forall e, In e (filter is_fee (fetchHTLCView1 U (N.of_nat n))) <->
                          In e (l_list U) /\ idx e < n /\ is_fee e = true).
   { intros e. rewrite filter_In, view_in. tauto. }
@@ -830,13 +880,9 @@ Proof.
       apply Nat.leb_le, PR. }
     destruct (PRES i' r') as [e' [IE' EI']]; [lia|lia|exact NE'|].
     unfold fetchHTLCView1 in LO, IE'.
-    pose proof (last_is_max idx (fun e => is_fee e && (e_log e <? N.of_nat n)%N) (l_list U) pd INC) as MX.
-    assert (EQF : forall l, filter is_fee (filter (fun e => (e_log e <? N.of_nat n)%N) l)
-                  = filter (fun e => is_fee e && (e_log e <? N.of_nat n)%N) l).
-    { induction l as [|a l IHl]; [reflexivity|]. cbn. destruct (e_log a <? N.of_nat n)%N; cbn;
-        destruct (is_fee a); cbn; rewrite ?IHl; reflexivity. }
-    rewrite EQF in LO. specialize (MX LO e').
-    rewrite EQF in IE'. specialize (MX IE'). lia.
+    pose proof (last_is_max idx (fun e => (e_log e <? N.of_nat n)%N) (filter is_fee (l_list U)) pd INC) as MX.
+    rewrite filter_filter_comm in LO. rewrite filter_filter_comm in IE'.
+    specialize (MX LO e' IE'). lia.
   - apply last_opt_none in LO.
     rewrite <- (firstn_skipn t (firstn n L)), firstn_firstn, last_fee_app.
     replace (Nat.min t n) with t by lia. symmetry. apply last_fee_nofee. intros u IN r' ->.
@@ -1403,12 +1449,21 @@ Proof. unfold markfn. destruct (_ && _); [apply sch_exp|reflexivity]. Qed.
 Lemma markfn_hash w h i e : e_hash (markfn w h i e) = e_hash e.
 Proof. unfold markfn. destruct (_ && _); [apply sch_hash|reflexivity]. Qed.
 
+Lemma filter_map_fee (g : entry -> entry) l : (forall x, is_fee (g x) = is_fee x) ->
+  filter is_fee (map g l) = map g (filter is_fee l).
+Proof.
+  intros E. induction l as [|a r IH]; cbn; [reflexivity|]. rewrite E. destruct (is_fee a); cbn; rewrite IH; reflexivity.
+Qed.
+
 Lemma logcorr_mark L Lo U Ft Fo w h i :
   LogCorr L Lo U Ft Fo -> LogCorr L Lo (mark_log w h i U) Ft Fo.
 Proof.
-  intros [A B]. split.
-  - rewrite mark_log_list, map_map. rewrite <- A. apply map_ext. intros e. unfold idx.
-    rewrite markfn_log. reflexivity.
+  intros [A F B].
+  assert (EM : forall l, map idx (map (markfn w h i) l) = map idx l).
+  { intros l. rewrite map_map. apply map_ext. intros e. unfold idx. rewrite markfn_log. reflexivity. }
+  split.
+  - rewrite mark_log_list, EM. exact A.
+  - rewrite mark_log_list, filter_map_fee, EM; [exact F|]. intros x. unfold is_fee. rewrite markfn_type. reflexivity.
   - intros e' IN. rewrite mark_log_list in IN. apply in_map_iff in IN. destruct IN as [e [<- IN]].
     specialize (B e IN). unfold corr_entry, idx in *.
     rewrite markfn_log, markfn_type, markfn_amt, markfn_exp, markfn_hash, markfn_htlc, markfn_parent.
@@ -1534,8 +1589,8 @@ Proof.
   - reflexivity.
   - reflexivity.
   - reflexivity.
-  - split; [reflexivity|intros e []].
-  - split; [reflexivity|intros e []].
+  - split; [apply Permutation_refl|exact I|intros e []].
+  - split; [apply Permutation_refl|exact I|intros e []].
   - exact VI.
   - lia.
   - lia.
